@@ -225,4 +225,16 @@ theorem history_restores_runs (sim : Sim) (hb : sim.ens ≠ .base) (es : List Ev
       obtain ⟨i1, i2⟩ := ih _ (inv_newRun sim s p c hinv) hrest
       exact ⟨i1, newRun_atoms sim s p c, i2⟩
 
+/-- the same when the user also sets new momenta between the runs (Hamiltonian driver): the next run starts from them -/
+theorem inv_newRunM (sim : Sim) (s : State) (p m : List V3) (c : Option V3) (h : Inv sim.ens s) :
+    Inv sim.ens (newRunM sim s p m c) := by
+  have hctx : (userEditM s p m c).ctx = s.ctx := by
+    unfold userEditM userEdit
+    simp only []
+    split <;> (split <;> rfl)
+  unfold newRunM
+  apply inv_validate
+  · rw [hctx]; exact h.noAdded
+  · rw [hctx]; exact h.noDeleted
+
 end MM
